@@ -332,8 +332,12 @@ impl Decoder {
     }
     /// feed all new events into the controller
     pub fn sync(&mut self, b: &Board, tr: Transport, ctl: &mut Ctl) {
+        self.sync_until(b, tr, ctl, b.evs.len())
+    }
+    /// feed the events up to (excluding) index `end`
+    pub fn sync_until(&mut self, b: &Board, tr: Transport, ctl: &mut Ctl, end: usize) {
         let nbits = if tr.bus16() { 16 } else { 8 };
-        while self.pos < b.evs.len() {
+        while self.pos < b.evs.len().min(end) {
             let ev = b.evs[self.pos];
             self.pos += 1;
             match ev {
@@ -541,10 +545,68 @@ pub struct InitRun {
     pub ctl: Ctl,
     pub out: Outcome,
     pub state: Option<DState>,
+    /// first event of this initialisation on the timeline (non-zero for a retry)
+    pub ev_start: usize,
+}
+
+/// F_BORROWED|F_RETRY: (first init with the faults, second init fault-free on the same interface).
+/// The second run's controller model is fresh (the panel's registers are reset by the reset step anyway)
+/// but the decoder continues with the pin levels and the transport state the first attempt left behind.
+pub fn init_run_retry(cfg: &Cfg, faults: &[Fault]) -> (Outcome, InitRun) {
+    let mut c = *cfg;
+    c.flags |= F_BORROWED | F_RETRY;
+    let levels = Board::default_levels();
+    let bd = Board::new(levels);
+    {
+        let mut b = bd.borrow_mut();
+        b.faults = faults.to_vec();
+        b.budget = DEFAULT_BUDGET;
+    }
+    let (fw, fh) = c.fb();
+    let mut first = Outcome::Ok;
+    let mut state = None;
+    let mut start = 0usize;
+    let out = guarded(|| {
+        let io = init_only(&c, &bd);
+        if let Err(e) = io.res {
+            first = Outcome::Err(e);
+        }
+        let (r2, st) = io.retry.expect("retry result");
+        start = st;
+        match r2 {
+            Ok(s) => {
+                state = Some(s);
+                Ok(())
+            }
+            Err(e) => Err(e),
+        }
+    });
+    // decode: a throw-away controller up to the retry, then a fresh one
+    let mut dec = Decoder::new(levels);
+    let mut scratch = Ctl::new(fw, fh, c.tr.bus16());
+    let mut ctl = Ctl::new(fw, fh, c.tr.bus16());
+    ctl.keep_cmds = true;
+    if let ModelId::Builtin(i) = c.model {
+        ctl.vendor_pages = BUILTINS[i as usize].vendor_pages;
+        scratch.vendor_pages = ctl.vendor_pages;
+    }
+    {
+        let b = bd.borrow();
+        dec.sync_until(&b, c.tr, &mut scratch, start);
+        ctl.now_ns = scratch.now_ns;
+        dec.sync(&b, c.tr, &mut ctl);
+    }
+    ctl.finish_cmd();
+    (first, InitRun { cfg: c, bd, ctl, out, state, ev_start: start })
 }
 
 pub fn init_run(cfg: &Cfg, faults: &[Fault]) -> InitRun {
-    let levels = Board::default_levels();
+    let mut levels = Board::default_levels();
+    if cfg.flags & F_DATA_HIGH != 0 {
+        for l in levels.iter_mut().take(16) {
+            *l = true;
+        }
+    }
     let bd = Board::new(levels);
     {
         let mut b = bd.borrow_mut();
@@ -571,5 +633,5 @@ pub fn init_run(cfg: &Cfg, faults: &[Fault]) -> InitRun {
         dec.sync(&b, cfg.tr, &mut ctl);
     }
     ctl.finish_cmd();
-    InitRun { cfg: *cfg, bd, ctl, out, state }
+    InitRun { cfg: *cfg, bd, ctl, out, state, ev_start: 0 }
 }
